@@ -267,6 +267,45 @@ def evaluate(case: Dict[str, Any]) -> Dict[str, Any]:
         if len(res) == 2 and res[0] != res[1]:
             bad("restarting twice from the same checkpoint object gives two different results")
         out["tags"].append(f"scaler={'yes' if kwR.get('gradient_scaler') is not None else 'no'}")
+    elif kind == "early":
+        # the target is met at the start: the run returns at once, without computing a gradient. Whatever it returns must still be a
+        # function of its inputs — the same call after unrelated work (other runs, arrays of the same size allocated and freed) gives
+        # the same result, field by field, and the first result does not change meanwhile
+        keep: List[Any] = []
+
+        def early_kw():
+            kwE, _, _ = build(case)
+            fE = kwE["fun"]
+
+            def fun_keeping(x, _f=fE):
+                keep.append(x)              # user code that keeps what it was handed (an evaluation log)
+                return _f(x)
+            kwE["fun"] = fun_keeping
+            kwE["ftarget"] = float("inf") if case["seed"] % 2 else float(np.real(fE(np.clip(np.asarray(kwE["x0"], dtype=float), p.lb, p.ub)))) + 1.0
+            kwE.pop("checkpoint", None)
+            return kwE
+        try:
+            r1 = plain(early_kw())
+            s1 = rs(r1)
+            junk = [np.full(p.n, 0.5 + i) for i in range(32)]
+            del junk
+            kwO, _, _ = build(sub_case(case, 3))
+            try:
+                plain(kwO)
+            except Exception:               # noqa: BLE001
+                pass
+            junk = [np.arange(p.n, dtype=float) * (1.5 + i) for i in range(32)]
+            del junk
+            r2 = plain(early_kw())
+            if rs(r1) != s1:
+                bad("the result of a run that stopped at once on its target changed after it was returned")
+            elif rs(r2) != s1:
+                a, b = s1.split(" "), rs(r2).split(" ")
+                names = ["x", "fun", "jac", "nfev", "njev", "nit", "status", "message", "success", "sk", "yk"]
+                bad("two equal calls that stop at once on the target return different results (fields %s)" % [nm for nm, u, v in zip(names, a, b) if u != v])
+            out["tags"].append(f"early_return_nit={int(r1.nit)}")
+        except Exception as e:              # noqa: BLE001
+            bad(f"a run whose target is met at the start raises {type(e).__name__}: {str(e)[:100]}")
     elif kind in ("threads", "nested"):
         caseB = sub_case(case, 2)
         if case.get("same_n"):
@@ -376,7 +415,7 @@ def run(tier: str, seed: int) -> int:
         print("MACHINERY: SciPy < 1.12: the legacy line search shares its work arrays (see no_mutable_default_written)")
         return 2
     mult = 1 if tier == "quick" else 12
-    plan = [("repeat", 60), ("frozen", 40), ("twice", 40), ("threads", 70), ("nested", 50)]
+    plan = [("repeat", 60), ("frozen", 40), ("twice", 40), ("threads", 70), ("nested", 50), ("early", 40)]
     cases: List[Dict[str, Any]] = []
     i = 0
     for kind, n in plan:
